@@ -26,7 +26,7 @@ impl<'a> Gen<'a> {
         }
         let base = self.pick_str(pool);
         let mut k = 1;
-        loop { let n = format!("{base}{k}"); if !taken.contains(&n) { return n; } k += 1; }
+        loop { let n = format!("{base}{k}"); if !taken.contains(&n) && !is_keyword(&n) { return n; } k += 1; }
     }
 
     /// a template type usable inside the declaration with index `upto` (only earlier declarations)
